@@ -521,7 +521,8 @@ impl<'a> Runner<'a> {
             }
             (Op::Reopen(newcfg), _) => {
                 self.do_sync("C02")?;
-                self.check_journal()?;
+                // (what the journal check finds is C11's; the restart is judged first and that finding reported after it)
+                let journal_err = self.check_journal().err();
                 let before = self.snapshot().map_err(|e| self.v("C02", "snapshot_before_close", e))?;
                 let live_dump = self.st.dump_live().map_err(|e| self.v("C02", "dump_failed", e))?;
                 self.st.close();
@@ -547,6 +548,9 @@ impl<'a> Runner<'a> {
                 let after_dump = self.st.dump_live().map_err(|e| self.v("C02", "dump_failed", e))?;
                 if after_dump != closed_dump {
                     return Err(self.v("C02", "dump_changed_by_open", "directory dump differs after open".into()));
+                }
+                if let Some(j) = journal_err {
+                    return Err(j);
                 }
             }
             (Op::Misc(k), Expect::Accept) => {
@@ -663,8 +667,12 @@ pub fn run_case(case: &HistCase, check_each: bool, final_restart: bool) -> (RunS
                     }
                     // an oracle of another property failed: note it, keep driving this history
                     // (its own oracles are still meaningful) unless the store is no longer usable
-                    if v.prop != case.plan && v.prop != "HARNESS" && side.len() < 4 && !v.sig.contains("panic") {
-                        side.push(v);
+                    if v.prop != case.plan && v.prop != "HARNESS" && !v.sig.contains("panic") {
+                        // (one witness per signature; a side failure that repeats at every step must not end the history
+                        // before its own oracles - e.g. the next restart - had their turn)
+                        if side.len() < 6 && !side.iter().any(|x| x.sig == v.sig) {
+                            side.push(v);
+                        }
                         continue;
                     }
                     res = Some(v);
@@ -681,9 +689,16 @@ pub fn run_case(case: &HistCase, check_each: bool, final_restart: bool) -> (RunS
                 // flush + restart at the end: the store must open and show the same state
                 r.step_ix = case.steps.len();
                 let plan_label: &str = if case.plan == "C02" { "C02" } else { "C06" };
+                let mut journal_side: Option<Viol> = None;
                 let fin = (|| -> Result<(), Viol> {
                     r.do_sync(plan_label)?;
-                    r.check_journal()?;
+                    // (a disagreement between the files and the reference journal is C11's finding; the restart is judged anyway)
+                    if let Err(jv) = r.check_journal() {
+                        if jv.prop == plan_label {
+                            return Err(jv);
+                        }
+                        journal_side = Some(jv);
+                    }
                     let before = r.snapshot().map_err(|e| r.v(plan_label, "snapshot_before_close", e))?;
                     r.st.close();
                     let dirc = r.st.dir.clone();
@@ -701,6 +716,11 @@ pub fn run_case(case: &HistCase, check_each: bool, final_restart: bool) -> (RunS
                 })();
                 if let Err(v) = fin {
                     res = Some(v);
+                }
+                if let Some(jv) = journal_side {
+                    if !side.iter().any(|x| x.sig == jv.sig) {
+                        side.push(jv);
+                    }
                 }
             }
             r.st.close();
